@@ -1575,3 +1575,6 @@ Proof.
   - intros o1 o2 o3 [<-|[<-|[]]] [<-|[<-|[]]] [<-|[<-|[]]] H1 H2; vm_compute in *; congruence.
   - intros o1 o2 [<-|[<-|[]]] [<-|[<-|[]]] Hd Hn; vm_compute in *; try congruence; tauto.
 Qed.
+
+(* used in the statements of Props.v: the edge sort is a permutation of the applicable offers *)
+Definition order_perm (E : env) : Prop := forall p l, Permutation (e_order E p l) l.
